@@ -1,10 +1,10 @@
 (* Extraction of the C17 codec models (ExtrOcamlBasic only; numbers stay Coq's positive/Z datatypes). *)
 From Coq Require Extraction ExtrOcamlBasic.
-From Verif Require Import Codec.OffsetModel Codec.ImmModel Codec.RangeModel Codec.T32FixModel Codec.BitfieldModel Codec.BfmSemModel Codec.X86ImmModel Codec.Unsigned64Model.
+From Verif Require Import Codec.OffsetModel Codec.ImmModel Codec.RangeModel Codec.T32FixModel Codec.BitfieldModel Codec.BfmSemModel Codec.X86ImmModel.
 Extraction Blacklist List String Int.
 Extraction "codec.ml" OffsetModel.write_offset OffsetModel.encode_offset OffsetModel.encode_aarch32_imm
   OffsetModel.decode_signed OffsetModel.decode_unsigned OffsetModel.decode_a64_adr OffsetModel.arm_expand_imm
-  T32FixModel.write_offset_fixed T32FixModel.write_offset_var Unsigned64Model.write_offset_top BitfieldModel.encode_bitfield BitfieldModel.ubfm_sem BfmSemModel.ubfm_pc BfmSemModel.sbfm_pc BfmSemModel.bfm_pc
+  T32FixModel.write_offset_fixed T32FixModel.write_offset_var BitfieldModel.encode_bitfield BitfieldModel.ubfm_sem BfmSemModel.ubfm_pc BfmSemModel.sbfm_pc BfmSemModel.bfm_pc
   X86ImmModel.arith_reg_imm X86ImmModel.arith_mem_imm X86ImmModel.effective_imm
   X86ImmModel.test_reg_imm X86ImmModel.test_mem_imm X86ImmModel.mov_reg_imm X86ImmModel.mov_mem_imm X86ImmModel.imul_imm X86ImmModel.push_imm
   RangeModel.is_int_n_signed RangeModel.is_int_n_unsigned RangeModel.is_uint_n_signed RangeModel.is_uint_n_unsigned
